@@ -673,6 +673,59 @@ static void do_rpregion(const J& g, W& w) {
     free_polys(out);
 }
 
+
+// centre line of a simple RobustPath (what PATH records are written from) against the exact curve
+// f(u) + n(u) * offset(u), with an offset interpolation of its own in every section
+static void do_rpcenter(const J& g, W& w) {
+    double tol = pow(10.0, -(double)g["tolk"].i());
+    double width = (double)g["w"].i() / 1000.0, off0 = (double)g["offs"][(size_t)0][(size_t)0].i() / 1000.0;
+    RobustPath r = {};
+    Tag t = 0;
+    r.init(Vec2{0, 0}, 1, &width, &off0, tol, 1000, &t);
+    std::vector<Sec> secs;
+    std::vector<std::pair<double, double>> offs;
+    Vec2 start = {0, 0}, grad = {1, 0};
+    for (size_t i = 0; i < g["secs"].size(); i++) {
+        Sec s = sec_of(g["secs"][i], start, grad);
+        secs.push_back(s);
+        double a = (double)g["offs"][i][(size_t)0].i() / 1000.0, b = (double)g["offs"][i][(size_t)1].i() / 1000.0;
+        offs.push_back({a, b});
+        Interpolation O = {};
+        O.type = InterpolationType::Linear;
+        O.initial_value = a;
+        O.final_value = b;
+        robust_call(r, g["secs"][i], NULL, &O);
+        start = s.f(1.0);
+        grad = s.df(1.0);
+    }
+    r.simple_path = true;
+    Array<Vec2> pts = {};
+    ErrorCode e = r.element_center(r.elements, pts);
+    std::vector<Vec2> cen;
+    const int M = 4000;
+    for (size_t k = 0; k < secs.size(); k++)
+        for (int i = 0; i <= M; i++) {
+            double u = (double)i / M;
+            Vec2 d = secs[k].df(u);
+            Vec2 n = Vec2{-d.y, d.x} * (1.0 / (d.length() + 1e-300));
+            cen.push_back(secs[k].f(u) + n * (offs[k].first + (offs[k].second - offs[k].first) * u));
+        }
+    double worst = 0;
+    bool fin = true;
+    for (uint64_t i = 0; i < pts.count; i++) {
+        if (!std::isfinite(pts[i].x) || !std::isfinite(pts[i].y)) fin = false;
+        double best = 1e300;
+        for (auto& c : cen) best = fmin(best, (c - pts[i]).length_sq());
+        worst = fmax(worst, sqrt(best));
+    }
+    double e0 = pts.count ? (pts[0] - cen.front()).length() : 1e9;
+    double e1 = pts.count ? (pts[pts.count - 1] - cen.back()).length() : 1e9;
+    w.kv("err", (int64_t)e).kv("npts", (int64_t)pts.count).kb("finite", fin);
+    w.kv("dev_milli", (int64_t)fmin(2e9, ceil(worst / (tol * 1e-3))));
+    w.kv("ends_milli", (int64_t)fmin(2e9, ceil(fmax(e0, e1) / (tol * 1e-3))));
+    pts.clear();
+}
+
 int main(int argc, char** argv) {
     if (argc < 3) return 2;
     gdstk::set_error_logger(NULL);
@@ -690,6 +743,7 @@ int main(int argc, char** argv) {
         else if (k == "rpxform") do_rpxform(g, w);
         else if (k == "rpcmd") do_rpcmd(g, w);
         else if (k == "rpregion") do_rpregion(g, w);
+        else if (k == "rpcenter") do_rpcenter(g, w);
         w.end_obj();
         fputs(w.s.c_str(), out);
         fputc('\n', out);
